@@ -83,10 +83,15 @@ def _process_batch(modname: str, cases: Sequence[dict], opts: dict) -> List[dict
             if need_host and (tr.status == "ok" or opts.get("host_always")):
                 for run in case.get("runs") or [{"passes": 0}]:
                     host_runs.append(hostrun.run_host(case["src"], run, timeout_s=opts.get("host_timeout", 5.0)))
-            if judge is not None:
-                outcome, detail = judge(case, tr, dev_runs, host_runs)
-            else:
-                outcome, detail = default_judge(case, tr, dev_runs, host_runs)
+            try:
+                if judge is not None:
+                    outcome, detail = judge(case, tr, dev_runs, host_runs)
+                else:
+                    outcome, detail = default_judge(case, tr, dev_runs, host_runs)
+            except Exception:  # noqa: BLE001 - a bug in a judge is a harness error of THIS case, not of its whole batch
+                import traceback
+
+                outcome, detail = "harness_error", traceback.format_exc()[-1500:]
             rec = {"id": case.get("id"), "outcome": outcome, "detail": detail}
             if tr.status == "ok":
                 rec["cpp_sha"] = hashlib.sha256(tr.cpp.encode()).hexdigest()[:16]
@@ -127,11 +132,19 @@ def chunked(it: Iterable[dict], size: int) -> Iterator[List[dict]]:
 _POOL: Optional[mp.pool.Pool] = None
 
 
+def _init_worker() -> None:
+    """A stray SIGALRM (the wall-clock guards of transpile / host runs use the real-time timer) must never kill a pool
+    worker: a dead worker loses its task and the whole exploration would wait for it for ever."""
+    import signal
+
+    signal.signal(signal.SIGALRM, lambda signum, frame: None)
+
+
 def pool() -> mp.pool.Pool:
     global _POOL
     if _POOL is None:
         ctx = mp.get_context("fork")
-        _POOL = ctx.Pool(WORKERS)
+        _POOL = ctx.Pool(WORKERS, initializer=_init_worker)
     return _POOL
 
 
